@@ -691,8 +691,8 @@ oracle_values(const TypeInfo& t, float given, const Array<3, float>& x, const Ar
       if (y && !(std::fabs(static_cast<double>(yv[i]) - xi) <= std::fabs(s) / 2 + (EPS_FMT + 8 * EPS_F) * std::fabs(xi) + 1e-44))
         ++bad_trip;
     }
-  if ((bad_round || bad_trip) && expect_k6)
-    {
+  if ((bad_round || bad_trip || bad_neg) && expect_k6)
+    { // a dataset read from the wrong offset: any of the value checks may fail
       known_candidate(K6, K6_TEXT);
       return;
     }
